@@ -19,6 +19,8 @@ TStep ==
          /\ ev.words = e.ss
          /\ (e.kind = "quote" => Len(e.ss) = 1)
          /\ e.split.toks = e.ss /\ e.split.ok = TRUE
+         \* asked again after other inputs (one of them incomplete): Split is a function of its argument
+         /\ e.split2.toks = e.ss /\ e.split2.ok = TRUE
 
 TSkip == l <= N /\ ~ENABLED TStep /\ Reject(l) /\ l' = l + 1
 TNext == TStep \/ TSkip
